@@ -432,6 +432,48 @@ def runPool (E : Env) : Nat → Pool → List Op → Pool
   | _, p, [] => p
   | k, p, op :: ops => runPool E (k + 1) (step E k p op).pool ops
 
+/-! ### Copies restored through `__setstate__` -/
+
+/-- The object `pickle.loads(pickle.dumps(ob))` / `copy.copy(ob)` yields (`HasTraits.__reduce_ex__`,
+`__getstate__`, `__setstate__`, has_traits.py:1281-1360): `__getstate__` saves the plain values, the
+delegate reference and the LOCAL values of deferring attributes (a linked attribute is not saved,
+has_traits.py:1299-1314); `__setstate__` runs `_init_trait_listeners` — one forwarder per deferring
+attribute — and then `trait_set(**state)`: assigning `d` hooks every forwarder on the delegate, assigning a
+local value of a prototyped attribute stores it and removes that attribute's forwarder (`setattr_delegate`).
+So the copy is the object a fresh instance with the same values and delegate would be: same class, dictionary
+and delegate; a forwarder, hooked on the delegate, exactly for the deferring attributes without local value.
+(Validators are assumed to accept the stored values they produced; handlers are not part of the state.) -/
+def Obj.restored (ob : Obj) : Obj :=
+  { ob with fwd := fun n =>
+      match ob.cls.trait n with
+      | .defer _ =>
+        match ob.dict n with
+        | some _ => none
+        | none => some ob.deleg
+      | _ => none }
+
+/-- `which = none`: the whole pool is replaced by its pickle round trip (sharing preserved);
+`which = some o`: object `o` is replaced by `copy.copy` of it (it keeps its delegate). -/
+def Pool.restore (p : Pool) (which : Option ObjId) : Pool :=
+  { p with obj := fun j => if which = none ∨ which = some j then (p.obj j).restored else p.obj j }
+
+/-- Does the copy raise?  `__setstate__` re-assigns every saved local value of a deferring attribute through
+`setattr_delegate` (`trait_set(**state)`), which needs the complete chain below the attribute to find the
+validating trait: with the delegate None (or the chain longer than the limit) it raises DelegationError and
+the copy / unpickling fails (known finding: a state the object was in cannot be restored). -/
+def Pool.restoreFails (p : Pool) (which : Option ObjId) : Bool :=
+  (List.range p.size).any fun j =>
+    (which == none || which == some j) &&
+    (p.obj j).cls.deferNames.any fun nd =>
+      ((p.obj j).dict nd.1).isSome &&
+      (match walk p (p.obj j).cls.pfx 100 j nd.2 nd.1 with
+       | .error _ => true
+       | .ok _ => false)
+
+/-- Is `o` the delegate of another object?  (`copy.copy` of such an object is skipped by both drivers.) -/
+def isDelegateOfOther (p : Pool) (o : ObjId) : Bool :=
+  (List.range p.size).any fun j => j ≠ o && (p.obj j).deleg == some o
+
 /-- Would `o.d = t` close a cycle in the delegate graph?  (Guard used by both drivers.) -/
 def reaches (p : Pool) : Nat → ObjId → ObjId → Bool
   | 0, _, _ => false
